@@ -362,6 +362,49 @@ def commit_check_first(ctx, only=None):
     return qs, enc
 
 
+def handback_intact(ctx):
+    """FinishedSession::try_commit_nonblocking / Overlay::try_commit_nonblocking: a changeset that is
+    handed back (`Ok(Some(self))`) is the changeset that was passed in: every field moved out of, or
+    mutably borrowed from, `self` on the way is assigned back before the hand-back."""
+    prog = ctx.program("nomt")
+    qs, enc = [], set()
+    for a0, nm, ty in [("^FinishedSession$", "FinishedSession::try_commit_nonblocking", "FinishedSession"),
+                       ("^Overlay$", "Overlay::try_commit_nonblocking", "Overlay")]:
+        f = _fn(prog, r">::try_commit_nonblocking$", "lib.rs", a0)
+        cfg = pathsmt.Cfg(f)
+        ops, hand = {}, []
+        whole = {"_1"}
+        for bb in cfg.order:
+            for st in cfg.blocks[bb].stmts:
+                mm = re.match(r"(_\d+) = move _1;", st)
+                if mm:
+                    whole.add(mm.group(1))
+        for bb in cfg.order:
+            b = cfg.blocks[bb]
+            o = []
+            texts = list(b.stmts) + ([b.term] if b.term else [])
+            for st in texts:
+                if re.match(r"\(+_1\.\d+", st) and " = " in st and re.match(r"\(+_1\.\d+[^=]*\) = ", st):
+                    o.append(("clear", "stripped"))
+                rhs = st.split(" = ", 1)[1] if " = " in st else st
+                if re.search(r"move \(+_1\.\d+|&mut \(+_1\.\d+|&mut _1\b", rhs):
+                    o.append(("set", "stripped"))
+                hm = re.search(r"Option::<%s>::Some\(move (_\d+)\)" % ty, st)
+                if hm and hm.group(1) in whole:
+                    hand.append(bb)
+                    o.append(("bad_if", "stripped"))
+            if o:
+                ops[bb] = o
+        if not hand:
+            raise Unmatched("%s: no hand-back `Some(move self)` found" % nm)
+        scen = "c12_handback_session" if ty == "FinishedSession" else None
+        qs.append(PQuery("%s: the handed-back changeset is intact" % nm, cfg, ops, ["stripped"], {}, scenario=scen,
+                         key="%s:changeset modified before it is handed back" % nm))
+        qs.append(PQuery("%s: the hand-back is reachable" % nm, cfg, {bb: [("bad", None)] for bb in hand}, [], {}, expect="sat"))
+        enc.add("%s @ nomt/src/lib.rs" % nm)
+    return qs, enc
+
+
 def store_commit_poison(ctx):
     """store::Store::commit: the poisoned flag is loaded before Sync::sync is called, and on the path
     where Sync::sync returned Err the flag is stored before Err is returned."""
@@ -801,6 +844,33 @@ def flock_result(ctx):
     qs.append(PMulti("Flock::lock: no fallible value is dropped uninspected", cfg, o2, fl2, {}, scenario="c20_second_open",
                      key="Flock::lock:swallowed result"))
     return qs, {"store::flock::Flock::lock @ nomt/src/store/flock.rs"}
+
+
+def lock_file_permanent(ctx):
+    """store::flock: the lock file is never removed, renamed or truncated by the code that takes and
+    releases the lock (an opener that still holds the old inode and one that creates a fresh `.lock`
+    would otherwise both succeed)."""
+    prog = ctx.program("nomt")
+    qs, enc = [], set()
+    n = 0
+    for nm, fs in sorted(prog.fns.items()):
+        for f in fs:
+            if not f.file or not f.file.endswith("store/flock.rs") or "::tests::" in nm:
+                continue
+            cfg = pathsmt.Cfg(f)
+            bad = [bb for bb in cfg.order if cfg.blocks[bb].call and (re.search(FS_DESTRUCTIVE, cfg.blocks[bb].call[1])
+                                                                      or re.search(r"OpenOptions::truncate", cfg.blocks[bb].call[1]))]
+            rets = [bb for bb in cfg.order if cfg.blocks[bb].is_return]
+            short = re.sub(r"<impl at nomt/src/([^:]+):\d+:\d+: \d+:\d+>", r"<\1>", nm)
+            qs.append(PQuery("%s: never removes / renames / truncates the lock file" % short, cfg, {bb: [("bad", None)] for bb in bad}, [], {},
+                             scenario="c20_lock_order", key="%s:lock file removed or replaced" % short))
+            if rets and n == 0:
+                qs.append(PQuery("%s: return is reachable" % short, cfg, {bb: [("bad", None)] for bb in rets}, [], {}, expect="sat"))
+            n += 1
+            enc.add("%s @ nomt/src/store/flock.rs" % short)
+    if n < 2:
+        raise Unmatched("store/flock.rs: expected Flock::lock and Drop for Flock")
+    return qs, enc
 
 
 def release_after_drain(ctx):
